@@ -198,6 +198,24 @@ CONTRACTS = [
              note="_dataReceived is used through an over-approximating contract (may raise anything, may modify every field): "
                   "whatever it raises (BadNonce, CryptoError, ValueError, BadHandshake, ...) the connection is dropped exactly once "
                   "and the state becomes 'hung up'; only BadHandshake is swallowed"),
+    Contract(T + "Connection.connectConsumer", props=[PROP], params={"consumer": "obj[Consumer]", "expected": "opt[int]"},
+             self_fields={**F_QUEUES, **F_CONSUMER}, modifies=M_QUEUES + M_CONSUMER,
+             raises_exactly={"RuntimeError": "self._consumer is not None"},
+             ensures=[("queued-records-drained-before-live-ones", f"self._consumer is None or len({R}) == 0"),
+                      ("reads-untouched", f"{W} == old({W})"),
+                      ("consumer-invariant-kept", INV_CONSUMER)],
+             internal_ensures=[("drained-in-queue-order", f"old({R}) == gw + {R}"),
+                               ("producer-registered-before-any-write", "bcall_names()[0] == 'registerProducer'"),
+                               ("deferred-iff-expected", "(d is None) == (expected is None)")],
+             loops={0: {"header": "self._consumer and self._inbound_records",
+                        "ghost_init": {"gw": "empty_seq('bytes')"}, "ghost_update": {"gw": "gw + [r]"},
+                        "invariant": [f"at_entry({R}) == gw + {R}", INV_CONSUMER, f"{W} == at_entry({W})",
+                                      "(d is None) == (expected is None)"],
+                        "body_ensures": ["iter_bcall_names()[0] == 'write'",
+                                         f"iter_bcall_arg('write', 0, 0) == at_iter({R})[0]",
+                                         f"r == at_iter({R})[0] and {R} == at_iter({R})[1:]"]}},
+             note="consumer mode keeps the order: records that were queued before the consumer was attached are written to it "
+                  "first, oldest first, one write each (ghost gw); only then do live records go to it directly (recordReceived)"),
     # ------------------------------------------------------------------ keys: one per direction, same on both ends
     Contract(T + "Common._sender_record_key", props=[PROP], params={}, self_fields={"is_sender": "bool", "_transit_key": "bytes"},
              returns="bytes", raises_exactly={"AssertionError": "len(self._transit_key) == 0"},
@@ -267,6 +285,33 @@ CONTRACTS = [
                                                               "n_calls('recordReceived') == 0")],
               loops={0: {"invariant": ["self.buf == at_entry(self.buf)"], "body_ensures": ["False"]}},
               note="any proper prefix of a frame yields no record and stays buffered (fragmentation never surfaces a truncated record)"),
+    Contract("lemma:honest_record_is_accepted_unchanged", props=[PROP], source_module=T_PY,
+             params={"rx": "obj[Connection]", "n": "int", "record": "bytes"},
+             source_text="""
+             def honest_record_is_accepted_unchanged(rx, n, record):
+                 c = sbox_ct(rx.receive_box.key, be_enc(n, 24), record)   # what send_record's contract writes for counter n
+                 return rx._decrypt_record(c)
+             """,
+             requires=["0 <= n and n < 2**192", "rx.next_receive_nonce == n"],
+             ensures=[("same-plaintext", "result == record"), ("counter-advanced", "rx.next_receive_nonce == n + 1")],
+             note="sender contract + receiver contract + SecretBox correctness: the frame body that send_record writes for its "
+                  "k-th record is accepted by a receiver whose counter is k and whose receive key is the sender's send key, and "
+                  "decrypts to exactly that record (no exception is allowed here)"),
+    Contract("lemma:out_of_order_record_is_rejected", props=[PROP], source_module=T_PY,
+             params={"rx": "obj[Connection]", "m": "int", "record": "bytes"},
+             source_text="""
+             def out_of_order_record_is_rejected(rx, m, record):
+                 c = sbox_ct(rx.receive_box.key, be_enc(m, 24), record)   # a genuine frame, but not the next one
+                 try:
+                     rx._decrypt_record(c)
+                 except BadNonce:
+                     return True
+                 return False
+             """,
+             requires=["0 <= m and m < 2**192", "rx.next_receive_nonce != m"],
+             ensures=[("always-rejected", "result"), ("counter-kept", "rx.next_receive_nonce == old(rx.next_receive_nonce)")],
+             note="a replayed, duplicated, skipped-over or swapped genuine frame (counter m instead of the expected one) raises "
+                  "BadNonce and is not decrypted"),
     # ------------------------------------------------------------------ the state machine once established / dropped
     BodyLemma("lemma:hung_up_is_silent", T + "Connection._dataReceived", props=[PROP], params={"data": "bytes"},
               self_fields={**F_STATE, **F_BUF, **F_RX, **F_QUEUES, **F_CONSUMER, **F_NEG, "transport": "obj[Transport]",
@@ -303,7 +348,7 @@ ANY_DATA_RECEIVED = Contract(T + "Connection._dataReceived", params={"data": "by
 
 def regf(exclude=()):
     reg = make_transit_registry(CONTRACTS + [ANY_DATA_RECEIVED], exclude)
-    reg.class_fields["Connection"] = {}
+    reg.class_fields["Connection"] = dict(F_RX)
     sf = reg.spec_funcs
 
     def exc_class(it, x):
@@ -326,4 +371,22 @@ def tasks():
 
 
 TRUSTED = TRUSTED_LIB
-ASSUMPTIONS = []
+ASSUMPTIONS = [
+    "SecretBox is an ideal AEAD (INT-CTXT): 'authentic under the receive key' is the model predicate sbox_valid; that a party "
+    "without the key cannot produce a valid ciphertext is the cryptographic assumption, not something proved here",
+    "HKDF idealisation (injective in info) is used only by lemma:record_keys_cross_match.the-two-directions-use-different-keys",
+    "Deferred.callback/errback run no code that re-enters the Connection synchronously (an application callback that calls "
+    "receive_record()/close() from inside a firing Deferred is outside the model); transport.write keeps call order; TCP is in-order",
+    "preconditions taken as class invariants: send_nonce >= 0; a consumer with a byte target also has its Deferred "
+    "(_consumer_bytes_expected is None or _consumer_deferred is not None); no dataReceived after connectionLost",
+    "send_record is verified for len(record) < 2**32 - 40 only: for 2**32-40 <= len(record) < 2**32 the code's own assert passes "
+    "but the 4-byte length field overflows (unhexlify('%08x' % len) raises binascii.Error after the nonce was consumed); "
+    "reproduced natively with a length-faking bytes subclass, reported, not a C06 violation (nothing is sent)",
+    "end-to-end composition (k-th record received == k-th record sent for a whole stream) is the chain send_record.effects -> "
+    "lemma:frame_roundtrip / frame_incomplete -> dataReceivedRECORDS loop invariant (record boundaries depend on the stream only) "
+    "-> lemma:honest_record_is_accepted_unchanged / out_of_order_record_is_rejected -> recordReceived/_deliverRecords FIFO; each "
+    "link is discharged, the induction over the stream that joins them is the loop invariant, not a separate obligation",
+    "_dataReceived is used by dataReceived through an over-approximating contract (any exception, any field); its precise "
+    "contract is verified under C07",
+    "writeToFile/FileConsumer, disconnectConsumer called by the application, registerProducer pass-throughs: not under contract",
+]
